@@ -1282,13 +1282,17 @@ def run_atrest_case(case, col):
         if n_priv == 0 or not labels_raw or not labels_txt:
             col.note_inconclusive('control (no encryption): scanner found raw=%d text=%d of %d private rows - monitor is blind'
                                   % (len(labels_raw), len(labels_txt), n_priv))
-    # information only: other files of the data directory (log)
-    for fn in os.listdir(ddir):
-        if fn.endswith('.log'):
+    # information only (the statement speaks of the database file): every other file of the data directory (log, cache db)
+    for dirpath, _, fns in os.walk(ddir):
+        for fn in fns:
+            fp = os.path.join(dirpath, fn)
+            if fp in files or fn.startswith('c16-') or fn in ('spec.json', 'out.json'):
+                continue
             try:
-                hits, _ = scan_file(taint, os.path.join(ddir, fn))
+                hits, _ = scan_file(taint, fp)
+                col.probe('other_file_scan_info_only')
                 if hits:
-                    col.extra.setdefault('log_file_hits', []).append(sorted({e for e, _ in hits})[:6])
+                    col.extra.setdefault('other_file_hits_info_only', {})[fn] = sorted({e for e, _ in hits})[:6]
             except OSError:
                 pass
     for p in files:
@@ -1385,7 +1389,7 @@ def plan(tier, seed, scale=1.0):
                       'timeout': 3 * 3600 if thorough else 600})
     na = 4 if thorough else 1
     for i in range(na):
-        specs.append({'part': 'atrest', 'shard': 200 + i, 'encrypted': True, 'n_cases': max(1, int((6 if thorough else 1) * scale)),
+        specs.append({'part': 'atrest', 'shard': 200 + i, 'encrypted': True, 'n_cases': max(1, int((6 if thorough else 2) * scale)),
                       'env': {'DB_FIELD_ENCRYPTION_KEY': ENC_KEY}, 'timeout': 3 * 3600 if thorough else 600})
         specs.append({'part': 'atrest', 'shard': 300 + i, 'encrypted': False, 'n_cases': max(1, int((2 if thorough else 1) * scale)),
                       'timeout': 3 * 3600 if thorough else 600})
